@@ -466,3 +466,148 @@ func enumViews(e *yang.EnumType) string {
 	}
 	return "toint=" + j(a) + " tostring=" + j(c) + " names=" + j(ns) + " values=" + j(vs)
 }
+
+func init() {
+	// enumset <steps> <type> <type> ...         type = <kind e|b><place>;<namehex>:<valuehex|~>,...
+	// SEVERAL enumeration / bits types in ONE Modules set; member names are arbitrary non-empty strings (hex), written
+	// double-quoted.  Type number j (1-based) sits at the leaf x<j>:
+	//   i = leaf in module m,  l = leaf-list in a container of m,  t = typedef of m used by a leaf of m,
+	//   I = leaf in a second module n,  T = typedef of n used (through an import) by a leaf of m,  g = in a grouping of m
+	//   used once.
+	// steps as in enumproc.  -> "steps=<o|e per step> " + (the views of every type in order, " | " between | "err")
+	handlers["enumset"] = func(t []string) string {
+		var m, n strings.Builder
+		needImport := false
+		type where struct {
+			mod  string
+			path []string
+			bits bool
+		}
+		var locs []where
+		for j, tok := range t[1:] {
+			if len(tok) < 3 || tok[2] != ';' {
+				panic("bad type " + tok)
+			}
+			bits := tok[0] == 'b'
+			body := quotedBody(bits, tok[3:])
+			x := fmt.Sprintf("x%d", j+1)
+			switch tok[1] {
+			case 'i':
+				fmt.Fprintf(&m, " leaf %s { type %s }", x, body)
+				locs = append(locs, where{"m", []string{x}, bits})
+			case 'l':
+				fmt.Fprintf(&m, " container c%d { leaf-list %s { type %s } }", j+1, x, body)
+				locs = append(locs, where{"m", []string{fmt.Sprintf("c%d", j+1), x}, bits})
+			case 't':
+				fmt.Fprintf(&m, " typedef t%d { type %s } leaf %s { type t%d; }", j+1, body, x, j+1)
+				locs = append(locs, where{"m", []string{x}, bits})
+			case 'g':
+				fmt.Fprintf(&m, " grouping g%d { leaf %s { type %s } } uses g%d;", j+1, x, body, j+1)
+				locs = append(locs, where{"m", []string{x}, bits})
+			case 'I':
+				fmt.Fprintf(&n, " leaf %s { type %s }", x, body)
+				locs = append(locs, where{"n", []string{x}, bits})
+			case 'T':
+				needImport = true
+				fmt.Fprintf(&n, " typedef t%d { type %s }", j+1, body)
+				fmt.Fprintf(&m, " leaf %s { type n:t%d; }", x, j+1)
+				locs = append(locs, where{"m", []string{x}, bits})
+			default:
+				panic("bad place " + tok)
+			}
+		}
+		imp := ""
+		if needImport {
+			imp = " import n { prefix n; }"
+		}
+		ms := yang.NewModules()
+		if err := ms.Parse("module m { yang-version \"1.1\"; namespace \"urn:m\"; prefix m;"+imp+m.String()+" }", "m.yang"); err != nil {
+			return "parse-error " + strings.ReplaceAll(err.Error(), "\n", " ")
+		}
+		if n.Len() > 0 || needImport {
+			if err := ms.Parse("module n { yang-version \"1.1\"; namespace \"urn:n\"; prefix n;"+n.String()+" }", "n.yang"); err != nil {
+				return "parse-error " + strings.ReplaceAll(err.Error(), "\n", " ")
+			}
+		}
+		var verdicts strings.Builder
+		ok := false
+		for _, st := range t[0] {
+			var errs []error
+			switch st {
+			case 'P':
+				errs = ms.Process()
+			case 'G':
+				_, errs = ms.GetModule("m")
+			default:
+				panic("bad step")
+			}
+			ok = len(errs) == 0
+			if ok {
+				verdicts.WriteByte('o')
+			} else {
+				verdicts.WriteByte('e')
+			}
+		}
+		if !ok {
+			return "steps=" + verdicts.String() + " err"
+		}
+		roots := map[string]*yang.Entry{}
+		var out []string
+		for _, w := range locs {
+			if roots[w.mod] == nil {
+				roots[w.mod] = yang.ToEntry(ms.Modules[w.mod])
+			}
+			e := roots[w.mod]
+			for _, p := range w.path {
+				if e != nil {
+					e = e.Dir[p]
+				}
+			}
+			if e == nil || e.Type == nil {
+				out = append(out, "no-leaf")
+				continue
+			}
+			et := e.Type.Enum
+			if w.bits {
+				et = e.Type.Bit
+			}
+			if et == nil {
+				out = append(out, "no-table")
+				continue
+			}
+			out = append(out, enumViews(et))
+		}
+		return "steps=" + verdicts.String() + " " + strings.Join(out, " | ")
+	}
+}
+
+// quotedBody writes "enumeration { members }" / "bits { members }" from <namehex>:<valuehex|~>,... with every name
+// (and value) as a double-quoted YANG string.
+func quotedBody(bits bool, members string) string {
+	var b strings.Builder
+	kw, vk := "enum", "value"
+	if bits {
+		kw, vk = "bit", "position"
+		b.WriteString("bits {")
+	} else {
+		b.WriteString("enumeration {")
+	}
+	q := func(s string) string {
+		s = strings.ReplaceAll(s, "\\", "\\\\")
+		return "\"" + strings.ReplaceAll(s, "\"", "\\\"") + "\""
+	}
+	for _, mem := range strings.Split(members, ",") {
+		f := strings.Split(mem, ":")
+		if len(f) != 2 {
+			panic("bad member " + mem)
+		}
+		fmt.Fprintf(&b, " %s %s", kw, q(string(unhex(f[0]))))
+		if f[1] != "~" {
+			fmt.Fprintf(&b, " { %s %s; }", vk, q(string(unhex(f[1]))))
+		} else {
+			b.WriteString(";")
+		}
+	}
+	b.WriteString(" }")
+	return b.String()
+}
